@@ -33,6 +33,10 @@ type Obl struct {
 }
 
 type Enc struct {
+	lemmaLine  map[int]string
+	opaqueFun  map[string][2]string
+	opaqueNow  bool
+	qmu        sync.Mutex
 	alias      map[string]string
 	watchQ     []watchItem
 	globSlices []string
